@@ -96,7 +96,9 @@ func (r *Reconnector) Schedule(addr string) {
 func (r *Reconnector) attemptReconnect(addr string) {
 	r.mu.Lock()
 	state, exists := r.states[addr]
-	if !exists || r.closed {
+	if !exists || r.closed || r.paused {
+		// Paused: the timer fired just as Pause() ran. State is kept for
+		// Resume() + Schedule().
 		r.mu.Unlock()
 		return
 	}
@@ -122,7 +124,25 @@ func (r *Reconnector) attemptReconnect(addr string) {
 		return
 	}
 
+	// The address may have been cancelled, reset or re-scheduled from scratch
+	// while the attempt was in flight; this attempt no longer owns the state.
+	if r.states[addr] != state {
+		return
+	}
+
+	// Schedule() may have been called while the attempt was in flight (the
+	// manager does so itself when a dial fails) and armed a timer of its own.
+	// There must be only one pending timer per address.
+	if state.timer != nil {
+		state.timer.Stop()
+		state.timer = nil
+	}
+
 	if err != nil {
+		if r.paused {
+			// Do not re-arm while paused; state is kept for Resume() + Schedule().
+			return
+		}
 		// Reschedule if still within limits
 		if r.cfg.MaxAttempts == 0 || state.attempts < r.cfg.MaxAttempts {
 			delay := r.addJitter(state.nextDelay)
